@@ -130,6 +130,84 @@ theorem issue_set_last (a : Spec.Api) (k v : Nat) (e : Int) (pre : List Call) (n
     exact this
 
 
+/-! ### callbacks that panic or call Goexit -/
+
+theorem takeAtK_count (keep : Pair → Bool) (p : Pair) : ∀ (g : Nat) (gs : List (List Pair)) (r : Pair × List (List Pair)),
+    takeAtK keep g gs = some r →
+    ((gs.map (deliveredOf keep)).flatten).count p
+      = ((r.2.map (deliveredOf keep)).flatten).count p + (if r.1 = p then 1 else 0) := by
+  intro g gs
+  induction gs generalizing g with
+  | nil => intro r h; simp [takeAtK] at h
+  | cons x rest ih =>
+    intro r h
+    cases g with
+    | zero =>
+      cases x with
+      | nil => simp [takeAtK] at h
+      | cons y ys =>
+        simp only [takeAtK, Option.some.injEq] at h
+        subst h
+        by_cases hk : keep y = true
+        · simp [deliveredOf, hk, List.count_cons]
+        · simp [deliveredOf, hk, List.count_cons]
+    | succ i =>
+      simp only [takeAtK, Option.map_eq_some_iff] at h
+      obtain ⟨r', hr', rfl⟩ := h
+      have := ih i r' hr'
+      simp only [List.map_cons, List.flatten_cons, List.count_append]
+      omega
+
+theorem runO_count (sc : Scope) (oc : Pair → Outcome) (p : Pair) : ∀ (evs : List DEv) (s : Dl),
+    (s.runO sc oc evs).out.count p
+        + (((s.runO sc oc evs).gs.map (deliveredOf fun q => survives sc (oc q))).flatten).count p
+      = s.out.count p + ((s.gs.map (deliveredOf fun q => survives sc (oc q))).flatten).count p
+        + (((batches evs).map (deliveredOf fun q => survives sc (oc q))).flatten).count p := by
+  intro evs
+  induction evs with
+  | nil => intro s; simp [Dl.runO, batches]
+  | cons ev evs ih =>
+    intro s
+    have h2 := ih (s.stepO sc oc ev)
+    simp only [Dl.runO, List.foldl_cons] at h2 ⊢
+    rw [h2]
+    cases ev with
+    | spawn b =>
+      simp only [Dl.stepO, batches, List.map_append, List.map_cons, List.map_nil, List.flatten_append, List.flatten_cons,
+        List.flatten_nil, List.append_nil, List.count_append]
+      omega
+    | run g =>
+      simp only [Dl.stepO, batches]
+      split
+      · rename_i r hr
+        have := takeAtK_count (fun q => survives sc (oc q)) p g s.gs r hr
+        simp only [List.count_append, List.count_cons, List.count_nil, beq_iff_eq]
+        omega
+      · rfl
+
+theorem deliveredOf_all (keep : Pair → Bool) (h : ∀ q, keep q = true) : ∀ b, deliveredOf keep b = b := by
+  intro b
+  induction b with
+  | nil => rfl
+  | cons x xs ih => simp [deliveredOf, h x, ih]
+
+theorem finished_map_flatten (f : List Pair → List Pair) (hf : f [] = []) (gs : List (List Pair))
+    (h : gs.all (·.isEmpty) = true) : (gs.map f).flatten = [] := by
+  induction gs with
+  | nil => rfl
+  | cons x rest ih =>
+    simp only [List.all_cons, Bool.and_eq_true, List.isEmpty_iff] at h
+    simp [h.1, hf, ih h.2]
+
+
+theorem deliveredOf_all_mem (keep : Pair → Bool) : ∀ b : List Pair, (∀ x ∈ b, keep x = true) → deliveredOf keep b = b := by
+  intro b
+  induction b with
+  | nil => intro _; rfl
+  | cons x xs ih =>
+    intro h
+    simp [deliveredOf, h x (by simp), ih (fun y hy => h y (by simp [hy]))]
+
 /-! ### the cache and the timer table move together -/
 
 def keysOf (c : CacheL) : List Nat := c.data.map (·.1)
